@@ -453,7 +453,7 @@ def resolve(world, op):
                 vols = quantize(min(v, float(op.get("cap", 1e18))), g)
             else:
                 vols = vols[0]
-        return {"op": kind, "lw": i, "wells": wells, "pos": list(spec.get("pos", [10, 1])), "tips": tips, "vols": vols, "lc": op.get("lc", "Water"), "arm": op.get("arm", 0), "label": op.get("label")}
+        return {"op": kind, "lw": i, "wells": wells, "pos": list(spec.get("pos", [10, 1])), "tips": tips, "vols": vols, "lc": op.get("lc", "Water"), "arm": op.get("arm", 0), "label": op.get("label"), "vols_container": op.get("vols_container", "list")}
     return dict(op)
 
 
@@ -613,7 +613,12 @@ def execute(world, conc):
         elif kind == "distribute":
             wl.distribute(labs[conc["src"]], conc["col"], labs[conc["dst"]], ids_arg(conc["dw"]), volume=conc["vol"], label=conc.get("label") or "", **(conc.get("kw") or {}))
         elif kind in ("evo_aspirate", "evo_dispense"):
-            getattr(wl, kind)(labs[conc["lw"]], list(conc["wells"]), tuple(conc["pos"]), list(conc["tips"]), conc["vols"], conc["lc"], arm=conc.get("arm", 0), label=conc.get("label"))
+            vols_ = conc["vols"]
+            if isinstance(vols_, list) and conc.get("vols_container") == "tuple":
+                vols_ = tuple(vols_)
+            elif isinstance(vols_, list) and conc.get("vols_container") == "ndarray":
+                vols_ = np.array(vols_, dtype=float)
+            getattr(wl, kind)(labs[conc["lw"]], list(conc["wells"]), tuple(conc["pos"]), list(conc["tips"]), vols_, conc["lc"], arm=conc.get("arm", 0), label=conc.get("label"))
         elif kind == "comment":
             wl.comment(conc["text"])
         elif kind == "wash":
